@@ -154,15 +154,22 @@ impl C11 {
                     let l = r.below(4) as u64;
                     log.push(format!("new_operation({}, {:?}, {:?})", l, st, tt));
                     let (eid, (s, t)) = if open { f.new_operation(l, st.clone(), tt.clone()) } else { f.hypergraph.new_operation(l, st.clone(), tt.clone()) };
-                    let ws: Vec<usize> = (n..n + a).collect();
-                    let wt: Vec<usize> = (n + a..n + a + b).collect();
-                    m.w.extend(st);
-                    m.w.extend(tt);
-                    m.e.push(PEdge { l, s: ws.clone(), t: wt.clone() });
                     ctx.api("new_operation");
                     let os: Vec<usize> = s.iter().map(|v| v.0).collect();
                     let ot: Vec<usize> = t.iter().map(|v| v.0).collect();
-                    ctx.check(eid.0 == ne && os == ws && ot == wt, "new_operation/fresh-ids/value/any", || json!({"log": log, "observed": [os.clone(), ot.clone()], "expected": [ws.clone(), wt.clone()]}));
+                    // the returned node identifiers are fresh: together exactly n..n+a+b, each once (in which order the
+                    // source and target nodes are allocated is not prescribed); the model follows the returned ids
+                    let mut all: Vec<usize> = os.iter().chain(ot.iter()).cloned().collect();
+                    all.sort();
+                    let fresh = eid.0 == ne && os.len() == a && ot.len() == b && all == (n..n + a + b).collect::<Vec<_>>();
+                    if !ctx.check(fresh, "new_operation/fresh-ids/value/any", || json!({"log": log, "observed": [os.clone(), ot.clone()], "expected": "the ids n..n+a+b, each once"})) {
+                        return;
+                    }
+                    let mut labels = vec![0u32; a + b];
+                    for (k, &v) in os.iter().enumerate() { labels[v - n] = st[k]; }
+                    for (k, &v) in ot.iter().enumerate() { labels[v - n] = tt[k]; }
+                    m.w.extend(labels);
+                    m.e.push(PEdge { l, s: os.clone(), t: ot.clone() });
                 }
                 "add_edge_source" | "add_edge_target" => {
                     if ne == 0 { continue; }
@@ -366,9 +373,8 @@ impl C11 {
                 let res = guard(|| c.delete_edges(&eids));
                 ctx.check(res.is_err(), "Hypergraph::delete_edges/rejects-out-of-range/value/any", || json!({"log": log, "ids": ids}));
                 let mut c = h.clone();
-                #[allow(deprecated)]
-                let res = guard(|| c.delete_edge(&eids));
-                ctx.check(res.is_err(), "Hypergraph::delete_edge(alias)/rejects-out-of-range/value/any", || json!({"log": log, "ids": ids}));
+                let res = guard(|| crate::compat::delete_edge_alias(&mut c, &eids));
+                ctx.check(!matches!(res, Ok(Some(()))), "Hypergraph::delete_edge(alias)/rejects-out-of-range/value/any", || json!({"log": log, "ids": ids}));
                 ctx.class("hypergraph_delete_edges_out_of_range");
             }
             if kind != "out_of_range" {
@@ -376,8 +382,7 @@ impl C11 {
                 let eids: Vec<EdgeId> = ids.iter().map(|&i| EdgeId(i)).collect();
                 // half of the time through the deprecated alias
                 let alias = r.chance(1, 2);
-                #[allow(deprecated)]
-                let res = if alias { ctx.api("Hypergraph::delete_edge(alias)"); guard(|| h.delete_edge(&eids)) } else { guard(|| h.delete_edges(&eids)) };
+                let res = if alias && cfg!(has_delete_edge_alias) { ctx.api("Hypergraph::delete_edge(alias)"); guard(|| { crate::compat::delete_edge_alias(&mut h, &eids); }) } else { guard(|| h.delete_edges(&eids)) };
                 if must_return(ctx, "Hypergraph::delete_edges", kind, res, || json!({"log": log})).is_none() {
                     return;
                 }
